@@ -195,26 +195,38 @@ def one(nodes, what):
     return nodes[0]
 
 
+def split_var(func, what):
+    """Name of the local that receives <something>.split('/')."""
+    a = one((n for n in ast.walk(func) if isinstance(n, ast.Assign) and isinstance(n.value, ast.Call)
+             and isinstance(n.value.func, ast.Attribute) and n.value.func.attr == "split"
+             and [ast.unparse(x) for x in n.value.args] == ["'/'"] and not n.value.keywords
+             and len(n.targets) == 1 and isinstance(n.targets[0], ast.Name)), f"{what}: <levels> = <topic>.split('/')")
+    return a.targets[0].id, a
+
+
 def do_parse_mqtt(tree, out):
     f = find_func(tree, "BaseMQTTGateway", "parse_mqtt_to_message")
+    lv, split_assign = split_var(f, "parse_mqtt_to_message")
+    need(ast.unparse(split_assign.value.func.value) == f.args.args[1].arg, "parse_mqtt_to_message: the topic argument is split")
     cmp_ = one((n for n in ast.walk(f) if isinstance(n, ast.Compare) and isinstance(n.left, ast.Call)
                 and ast.unparse(n.left.func) == "len"), "parse_mqtt_to_message: len() comparison")
-    need(len(cmp_.ops) == 1 and isinstance(cmp_.ops[0], ast.Lt) and ast.unparse(cmp_.left) == "len(topic_levels)",
-         "parse_mqtt_to_message: len(topic_levels) < N")
+    need(len(cmp_.ops) == 1 and isinstance(cmp_.ops[0], ast.Lt) and ast.unparse(cmp_.left) == f"len({lv})",
+         "parse_mqtt_to_message: len(<levels>) < N")
     minlev = int_const(cmp_.comparators[0], "minimum number of levels")
     slices = [n for n in ast.walk(f) if isinstance(n, ast.Subscript) and isinstance(n.slice, ast.Slice)]
-    need(len(slices) == 2 and all(s.slice.step is None and ast.unparse(s.value) == "topic_levels" for s in slices),
-         "parse_mqtt_to_message: two slices of topic_levels expected")
+    need(len(slices) == 2 and all(s.slice.step is None and ast.unparse(s.value) == lv for s in slices),
+         "parse_mqtt_to_message: two slices of <levels> expected")
     pre = one((s for s in slices if s.slice.lower is None and s.slice.upper is not None), "prefix slice [:k]")
     suf = one((s for s in slices if s.slice.upper is None and s.slice.lower is not None), "tail slice [k:]")
     need(any(isinstance(n, ast.Call) and ast.unparse(n.func) == "'/'.join" and n.args and n.args[0] is pre
-             for n in ast.walk(f)), "parse_mqtt_to_message: prefix = '/'.join(topic_levels[:k])")
+             for n in ast.walk(f)), "parse_mqtt_to_message: prefix = '/'.join(<levels>[:k])")
+    need(any(isinstance(n, ast.Assign) and n.value is suf and ast.unparse(n.targets[0]) == lv for n in ast.walk(f)),
+         "parse_mqtt_to_message: <levels> = <levels>[k:]")
     idx = one((n for n in ast.walk(f) if isinstance(n, ast.Assign) and isinstance(n.targets[0], ast.Subscript)),
               "parse_mqtt_to_message: indexed assignment")
-    need(ast.unparse(idx.targets[0].value) == "topic_levels" and ast.unparse(idx.value) == "ack",
-         "parse_mqtt_to_message: topic_levels[i] = ack")
-    # order of the statements that matter: guard, prefix slice, tail slice
-    need(cmp_.lineno < pre.lineno < suf.lineno < idx.lineno, "parse_mqtt_to_message: statement order changed")
+    need(ast.unparse(idx.targets[0].value) == lv, "parse_mqtt_to_message: <levels>[i] = <ack>")
+    # order of the statements that matter: guard, prefix slice, tail slice, ack
+    need(split_assign.lineno < cmp_.lineno < pre.lineno < suf.lineno < idx.lineno, "parse_mqtt_to_message: statement order changed")
     out.append(f"Definition min_levels : Z := ({minlev})%Z.")
     out.append(f"Definition slice_prefix : Z := ({int_const(pre.slice.upper, 'prefix slice')})%Z.")
     out.append(f"Definition slice_tail : Z := ({int_const(suf.slice.lower, 'tail slice')})%Z.")
@@ -290,9 +302,10 @@ def do_transport(tree, out):
     need(isinstance(t1.handlers[0].body[-1], ast.Return), "send: the parse handler must return")
     t2 = try_with(send, "self._pub_callback(", "send: try around the publish callback")
     hs = find_func(tree, "MQTTTransport", "handle_subscription")
-    t3 = try_with(hs, "int(topic_levels[", "handle_subscription: try around int()")
+    lv, _ = split_var(hs, "handle_subscription")
+    t3 = try_with(hs, f"int({lv}[", "handle_subscription: try around int()")
     sub = one((n for s in t3.body for n in ast.walk(s) if isinstance(n, ast.Subscript)
-               and ast.unparse(n.value) == "topic_levels"), "handle_subscription: topic_levels[k]")
+               and ast.unparse(n.value) == lv), "handle_subscription: <levels>[k]")
     t4 = try_with(hs, "self._sub_callback(", "handle_subscription: try around the subscribe callback")
     out.append(caught_pred("send_parse_caught", t1.handlers[0].type, "send/parse"))
     out.append(caught_pred("pub_caught", t2.handlers[0].type, "send/publish"))
